@@ -86,6 +86,22 @@ def sampler_selection(repo, chk, prefix):
     m = fn.module
     cands, args = fn.params[0], fn.params[1]
     cparam = fn.params[2] if len(fn.params) > 2 else None
+    # the optional counter is chosen by `is None`: a truthiness test (`counter or GLOBAL`, `if not counter`) also replaces a counter that was
+    # passed explicitly and is still EMPTY - the construction counters start empty, so their selections would be booked on the ranking counter
+    if cparam is not None and prefix == 'C07':
+        for n in own_nodes(fn.node):
+            hit = None
+            if isinstance(n, ast.BoolOp) and isinstance(n.op, ast.Or) and isinstance(n.values[0], ast.Name) and n.values[0].id == cparam and any('GLOBAL_PRIOR_COMB_COUNTS' in ast.unparse(v) for v in n.values[1:]):
+                hit = n
+            elif isinstance(n, (ast.If, ast.IfExp)):
+                t = n.test
+                if isinstance(t, ast.UnaryOp) and isinstance(t.op, ast.Not):
+                    t = t.operand
+                if isinstance(t, ast.Name) and t.id == cparam and 'GLOBAL_PRIOR_COMB_COUNTS' in ast.unparse(n):
+                    hit = n.test
+            if hit is not None:
+                chk.bad('C07.6c', 'R5', fn.site(hit), ast.unparse(hit)[:100], f'the counter to use is chosen by the truthiness of `{cparam}`: a counter that is passed explicitly but still empty (every construction counter before its first use) is falsy '
+                        'and is replaced by GLOBAL_PRIOR_COMB_COUNTS, so the selections of the feature-construction candidates are counted on the ranking pairs\' counter; the choice must be `is None`')
     if paths is None:
         chk.unsure(f'{prefix}.2', 'R15', fn.site(), 'prior_combinations_sample', 'too many undecidable tests in the sampler')
         return None
@@ -161,7 +177,20 @@ def sampler_selection(repo, chk, prefix):
             # the order among equally evaluated candidates is the order of what is sorted: a set of the candidates has no list order
             over_set = any(isinstance(x, tuple) and x[:2] in (('call', ('name', 'sorted')), ('call', ('lib', 'heapq.nsmallest'))) and any(isinstance(a, tuple) and (a[:2] in (('call', ('name', 'set')), ('call', ('name', 'frozenset'))) or a[0] == 'setcomp') for a in x[2])
                            for x in walk_term(rt))
-            if over_set:
+            # what is ranked: the candidates - a ranking of the counter's own keys hands back combinations of earlier calls
+            ranks_counter = any(isinstance(x, tuple) and x[:2] in (('call', ('name', 'sorted')), ('call', ('lib', 'heapq.nsmallest'))) and len(x) > 2 and x[2] and
+                                any(y == ('role', 'counter') for a in x[2][-1:] for y in walk_term(a)) and not any(y == ('role', 'cands') for a in x[2] for y in walk_term(a))
+                                for x in walk_term(rt))
+            cap_t = E('args.combination_number_upper_bound')
+            lc_ = ('call', ('name', 'len'), (('role', 'cands'),), ())
+            fits = any((v and tt in (('cmp', '<=', lc_, cap_t), ('cmp', '>=', cap_t, lc_))) or (not v and tt in (('cmp', '>', lc_, cap_t), ('cmp', '<', cap_t, lc_)))
+                       for t, v in res.assumed for tt in [term_of(fn, t, bound, inline=False)])
+            if ranks_counter:
+                chk.bad(f'{prefix}.2', 'R15', site, f'{desc}: {ast.unparse(res.returned)[:160]}', 'the selection ranks the keys of the counter, not the candidates of this call: the counter also holds the combinations of earlier calls '
+                        '(other candidate lists), so combinations that are not candidates are returned; ' + why)
+            elif fits and rt in (('role', 'cands'), ('call', ('name', 'list'), (('role', 'cands'),), ())):
+                chk.ok(f'{prefix}.2', 'R15', site, f'{desc}: {ast.unparse(res.returned)[:120]}', 'the path established that the candidates do not exceed the cap: all of them are selected (the statement orders nothing within a batch)')
+            elif over_set:
                 chk.bad(f'{prefix}.2', 'R15', site, f'{desc}: {ast.unparse(res.returned)[:160]}', 'the selection sorts a *set* of the candidates: candidates with equal counts come out in set-iteration order (hash dependent), not in candidate-list order; ' + why)
             elif filtered and any(isinstance(x, tuple) and x and x[0] == 'sub' and isinstance(x[2], tuple) and x[2] and x[2][0] == 'slice' for x in walk_term(rt)) and \
                     all(c_[0] == 'cmp' and c_[1] in ('==', '!=') and any(isinstance(y, tuple) and y[:2] in (('call', ('name', 'min')), ('call', ('lib', 'numpy.min'))) for y in walk_term(c_))
@@ -242,11 +271,25 @@ def sampler_selection(repo, chk, prefix):
                 chk.expect(ok_over and ok_val and after, 'C07.3', 'R13', fn.site(u['node']), ast.unparse(u['node']).replace('\n', ' ')[:120], '+1 for every element of the returned list, unconditionally',
                            'the count must be raised by exactly 1 for exactly the returned candidates (after they were selected): ' + ('the loop ranges over something else than the returned list' if not ok_over else ('the increment is not 1' if not ok_val else 'the increment precedes the selection')))
                 inc_seen = True
+            elif u['kind'] == 'foreach' and u.get('op') == 'store' and val == ('num', 0):
+                # for c in candidates: if c not in counter: counter[c] = 0   - the same initialisation, candidate by candidate
+                from .common import loop_terms
+                ch_, key_, val_, g_, _a, _t = loop_terms(fn, u, bound)
+                guard_ok = g_ in (('cmp', 'notin', ('lvar', 0, 0), ('role', 'counter')), ('cmp', 'notin', ('lvar', 0, 0), ('call', ('attr', ('role', 'counter'), 'keys'), (), ())),
+                                  ('cmp', 'is', ('call', ('attr', ('role', 'counter'), 'get'), (('lvar', 0, 0),), ()), ('none',)))
+                over_ok = len(ch_) == 1 and ch_[0] in (('role', 'cands'), ('call', ('name', 'set'), (('role', 'cands'),), ()))
+                before = sel_seq is None or u['seq'] < sel_seq
+                if key_ == ('lvar', 0, 0) and over_ok and guard_ok and before:
+                    chk.ok('C07.1a', 'R2', fn.site(u['node']), ast.unparse(u['node']).replace('\n', ' ')[:140], 'only unseen candidates are initialised to 0, before the selection')
+                elif key_ == ('lvar', 0, 0) and over_ok and g_ is None:
+                    chk.bad('C07.1a', 'R2', fn.site(u['node']), ast.unparse(u['node']).replace('\n', ' ')[:140], 'every candidate is reset to 0 in every batch (the initialisation is not restricted to candidates that are not in the counter yet)')
+                else:
+                    chk.unsure('C07.1a', 'R2', fn.site(u['node']), ast.unparse(u['node']).replace('\n', ' ')[:140], 'an initialisation of counter entries to 0 in a form this rule does not classify')
             else:
                 chk.bad('C07.1b', 'R2', fn.site(u['node']), ast.unparse(u['node'])[:120], 'the counter may only be initialised to 0 for unseen candidates and incremented by 1 for the returned ones')
         # 1a (presence): when the selection ranks by counter.get(candidate) a candidate without an entry has no count (None): every path that
         # reaches the selection either initialises the unseen candidates or has established that there are none
-        init_seen = any(_counter_of(fn, u['target']) and u['kind'] == 'storeall' for u in res.updates)
+        init_seen = any(_counter_of(fn, u['target']) and (u['kind'] == 'storeall' or (u['kind'] == 'foreach' and u.get('op') == 'store' and isinstance(u.get('value'), ast.Constant) and u['value'].value == 0)) for u in res.updates)
         ranks_by_get = any(isinstance(x, tuple) and len(x) == 3 and x[0] == 'attr' and x[1] == ('role', 'counter') and x[2] == 'get' for x in walk_term(rt))
         def _does_something(lp_):
             return any(not isinstance(x, (ast.Pass, ast.For, ast.While, ast.Name, ast.Load, ast.Store, ast.expr_context)) and isinstance(x, ast.stmt) for b_ in lp_.body for x in ast.walk(b_))
@@ -272,6 +315,12 @@ def sampler_selection(repo, chk, prefix):
                     chk.bad('C07.3', 'R13', fn.site(opaque[0]), ast.unparse(opaque[0]).replace('\n', ' ')[:120], 'the +1 must be applied to every element of the returned list unconditionally')
                 else:
                     chk.unsure('C07.3', 'R13', fn.site(opaque[0]), ast.unparse(opaque[0]).replace('\n', ' ')[:120], 'a statement that touches the counter is outside the path vocabulary')
+            elif any(isinstance(x, tuple) and len(x) >= 3 and x[0] == 'call' and isinstance(x[1], tuple) and
+                     ((x[1][0] == 'lib' and str(x[1][1]).startswith('outrank.') and not str(x[1][1]).endswith('.get')) or (x[1][0] == 'attr' and any(isinstance(y, tuple) and y[:1] == ('call',) and isinstance(y[1], tuple) and y[1][0] == 'lib' and str(y[1][1]).startswith('outrank.') for y in walk_term(x[1]))))
+                     and any(y == ('role', 'counter') for y in walk_term(x)) for x in walk_term(rt)):
+                # the selection is delegated to code of the package that receives the counter (a sampler object / function in another module,
+                # not expanded here): the increments may happen there
+                chk.unsure('C07.3', 'R13', site, f'{desc}: {ast.unparse(res.returned)[:100]}', 'the selection is computed by package code that is handed the counter and is not analysed by this rule: whether the returned candidates are counted (+1 each) there is not decided')
             else:
                 chk.bad('C07.3', 'R13', site, f'{desc}: for c in <returned>: counter[c] += 1', 'no `+= 1` over exactly the returned list was found: reported counts do not equal the number of batches in which a candidate was selected')
     if n_main == 0:
@@ -395,7 +444,10 @@ def export(repo, chk):
         if 'GLOBAL_PRIOR_COMB_COUNTS' in ast.unparse(src):
             idx = i
             ok = ast.unparse(src) in ('GLOBAL_PRIOR_COMB_COUNTS.copy()', 'dict(GLOBAL_PRIOR_COMB_COUNTS)', 'GLOBAL_PRIOR_COMB_COUNTS', 'Counter(GLOBAL_PRIOR_COMB_COUNTS)')
-            chk.expect(ok, 'C07.5a', 'R6', est.site(rets[0]), ast.unparse(src), 'the streaming function hands out the counter itself (a copy)', 'the exported object must be a plain copy of GLOBAL_PRIOR_COMB_COUNTS')
+            if not ok and isinstance(src, ast.Call) and (est.module.dotted(src.func) or '').startswith('outrank.') and any(isinstance(a_, ast.Name) and a_.id == 'GLOBAL_PRIOR_COMB_COUNTS' for a_ in src.args):
+                chk.unsure('C07.5a', 'R6', est.site(rets[0]), ast.unparse(src)[:120], 'the exported counts are produced from GLOBAL_PRIOR_COMB_COUNTS by package code in another module that this rule does not analyse')
+            else:
+                chk.expect(ok, 'C07.5a', 'R6', est.site(rets[0]), ast.unparse(src), 'the streaming function hands out the counter itself (a copy)', 'the exported object must be a plain copy of GLOBAL_PRIOR_COMB_COUNTS')
             if isinstance(e, ast.Name):
                 # later stores into the copy may only add string keys (names of constructed features) with unmodified values
                 for n in own_nodes(est.node):
